@@ -160,6 +160,9 @@ def _convert_splits_to_groups(splits, N):
     Convert indices of splits into explicit groupings
     '''
     out = []
+    if len(splits) == 0:
+        # a single group holding every layer
+        out.append(numpy.arange(0,N))
     for i in range(len(splits)):
         if i == 0:
             out.append(numpy.arange(0,splits[i]+1))
@@ -193,6 +196,8 @@ def _Gjit(splits, h, p):
     N = len(p)
     # this is just convert_splits_to_groups, numba doesnt like it outside in its own function
     grouping = []
+    if len(splits) == 0:
+        grouping.append(numpy.arange(0,N))
     for i in range(len(splits)):
         if i == 0:
             grouping.append(numpy.arange(0,splits[i]+1))
